@@ -53,7 +53,7 @@ BIG = dict(max_paths=2000, max_decisions=200, max_forks_per_site=100000)
 class Sig:
     """a generated user function of shape (n, m) and its tokens"""
 
-    def __init__(self, env, n, m, tk, ret="list", ckind="def", vec_defaults=False):
+    def __init__(self, env, n, m, tk, ret="list", ckind="def", vec_defaults=False, vec_first=False):
         self.n, self.m, self.tk = n, m, tk
         self.names = NAMES[:n]
         self.req = self.names[: n - m]
@@ -66,7 +66,9 @@ class Sig:
         self.tok = {nm: mk("tok_" + nm) for nm in self.universe}
         self.tok2 = {nm: mk("new_" + nm) for nm in self.universe}  # second set (set_default values)
         # with vec_defaults every second default is a 'constant parameter' of another length
-        self.dfl = {nm: mk("dfl_" + nm, (1, 1) if (vec_defaults and i % 2) else None) for i, nm in enumerate(self.opt)}
+        # (vec_first: the FIRST, third, ... default instead -- an absent constant declared before a supplied batched name)
+        self.dfl = {nm: mk("dfl_" + nm, (1, 1) if (vec_defaults and i % 2 == (0 if vec_first else 1)) else None)
+                    for i, nm in enumerate(self.opt)}
         self.K = mk("K")
         # tokens are pairwise distinct (separated by >= 1): the routing code never inspects values, and an identity
         # between arithmetic terms that holds on this open set holds everywhere; counterexamples become robust
@@ -302,12 +304,12 @@ def shape_raw_ok(out, n, kind):
 # --------------------------------------------------------------------------
 
 
-def call_case(kind, n, m, order, ckind="def"):
+def call_case(kind, n, m, order, ckind="def", vec_first=False):
     tk, ret, route = KINDS[kind]
-    name = "call/%s/n%dm%d/%s%s" % (kind, n, m, order, "" if ckind == "def" else "/" + ckind)
+    name = "call/%s/n%dm%d/%s%s%s" % (kind, n, m, order, "" if ckind == "def" else "/" + ckind, "/first_default_is_a_constant_vector" if vec_first else "")
 
     def body(env):
-        sig = Sig(env, n, m, tk, ret, ckind, vec_defaults=(route == "vectorize"))
+        sig = Sig(env, n, m, tk, ret, ckind, vec_defaults=(route == "vectorize"), vec_first=vec_first)
         w = WCLS(kind)(sig.f)
         pre = token_cells(env, sig)
         present, pf = {}, {}
@@ -537,6 +539,12 @@ def _apply(op, w, sig, route, cls, rec):
     elif op == "sibling_sd":  # ANOTHER wrapper of the same user function gets defaults for every name
         w2 = cls(sig.f)
         w2.set_default(**full)
+    elif op == "bound_rewrap":  # a copy with one name bound by set_default is wrapped AGAIN: the binding survives
+        c = copy.deepcopy(w)
+        nm0 = sig.names[0]
+        c.set_default(**{nm0: sig.tok2[nm0]})
+        r = cls(c)
+        rec.append(("call", invoke(r, {nm: sig.tok2[nm] for nm in list(sig.names[1:]) + [EXTRA]}, route)))
     elif op == "twin_function":  # another function object made from the SAME code (a factory / a lambda in a loop) but
         # with other declared defaults is wrapped and called: it uses ITS defaults
         import types
@@ -755,6 +763,8 @@ def cases(tier):
                 if n == 0 and order != orders[0]:
                     continue
                 cs.append(call_case(kind, n, m, order))
+                if kind == "UFV" and m >= 2:
+                    cs.append(call_case(kind, n, m, order, vec_first=True))
     for ck in ("lambda", "method"):
         for n, m in ([(2, 1), (1, 0)] if not thorough else [(1, 0), (2, 1), (3, 3), (3, 0)]):
             cs.append(call_case("UF", n, m, "rev", ckind=ck))
@@ -792,6 +802,9 @@ def cases(tier):
         for seq in (("sibling_sd",), ("sibling_rd",), ("sibling_sd", "call")) + ((("sibling_rd", "pe_some"), ("sibling_sd", "sibling_rd")) if thorough else ()):
             cs.append(seq_case(kind, 3, 1, seq, family="sibling"))
     cs.append(seq_case("UF", 2, 2, ("sibling_rd",), family="sibling"))
+    for kind in ("UF", "DUF"):
+        cs.append(seq_case(kind, 3, 1, ("bound_rewrap",), family="rewrap_bound"))
+        cs.append(seq_case(kind, 2, 0, ("bound_rewrap", "call"), family="rewrap_bound"))
     # ---- two function objects sharing one code object (different declared defaults)
     for kind in ("UF", "DUF"):
         cs.append(seq_case(kind, 3, 2, ("twin_function",), family="twin"))
